@@ -137,12 +137,15 @@ def point_pool(rng, count, d):
 
 
 def gen_history(rng, tier):
+    """exact rational arithmetic on float64-derived entries costs ~10 ms per operation at N=6, so the
+    total number of training points after all updates is capped (5 quick / 7 thorough)"""
     thorough = tier != "quick"
+    nmax = 7 if thorough else 5
     d = rng.choice([1, 2])
     b = rng.choice([(), (), (2,)])
-    n0 = rng.randint(1, 3 if not thorough else 4)
-    t = rng.randint(1, 3)
     depth = rng.choice([1, 1, 2, 2, 3])
+    n0 = rng.randint(1, nmax - depth)
+    t = rng.randint(1, 2 if not thorough else 3)
     lik = rng.choice(LIKS)
     steps, cur, nnew = [], b, 0
     for k in range(depth):
@@ -152,7 +155,8 @@ def gen_history(rng, tier):
         if len(cur) == 1:
             forms.append("lowdim")
         form = rng.choice(forms)
-        m = rng.randint(1, 2)
+        room = nmax - n0 - sum(s_["m"] for s_ in steps) - (depth - k - 1)
+        m = rng.randint(1, min(2 if not thorough else 3, room))
         if form in ("shared", "newf_own"):
             new = (2,) + cur
             nnew += 1
@@ -174,7 +178,10 @@ def gen_history(rng, tier):
     for s in steps:
         s["X"] = take(shape_numel(s["in_batch"]) * s["m"])
         s["y"] = yv(shape_numel(s["tg_batch"]) * s["m"])
-        s["noise"] = nv(shape_numel(s["tg_batch"]) * s["m"])
+        # shared inputs: one covariance update serves all fantasies, so the fixed noise is shared too
+        # (a per-fantasy noise with shared inputs is rejected by cat_rows with a RuntimeError: unsupported)
+        s["nz_batch"] = s["in_batch"] if s["form"] == "shared" else s["tg_batch"]
+        s["noise"] = nv(shape_numel(s["nz_batch"]) * s["m"])
     return h
 
 
@@ -201,7 +208,7 @@ def step_tensors(h, s):
     d = h["d"]
     X = torch.tensor(s["X"]).reshape(tuple(s["in_batch"]) + (s["m"], d))
     y = torch.tensor(s["y"]).reshape(tuple(s["tg_batch"]) + (s["m"],))
-    nz = torch.tensor(s["noise"]).reshape(tuple(s["tg_batch"]) + (s["m"],))
+    nz = torch.tensor(s["noise"]).reshape(tuple(s.get("nz_batch", s["tg_batch"])) + (s["m"],))
     return X, y, nz
 
 
@@ -359,9 +366,20 @@ def prior_pieces(h, model):
     return B, KJ, mu, S, y
 
 
+GRID = 2 ** 44
+
+
+def rq(x):
+    """the model works on the dyadic grid 2^-44 (perturbation 3e-14 per entry, five orders below TOL)"""
+    import fractions
+    return fractions.Fraction(round(C.frac(x) * GRID), GRID)
+
+
 def coq_case(h, KJ, mu, S, y):
     N = len(y)
-    Sm = [[S[i] if i == j else 0 for j in range(N)] for i in range(N)]
+    KJ = [[rq(v) for v in row] for row in KJ]
+    mu = [rq(v) for v in mu]
+    Sm = [[rq(S[i]) if i == j else 0 for j in range(N)] for i in range(N)]
     return "(%d%%nat, %s, %d%%nat, %s, %s, %s, %s)" % (
         h["n0"], C.nat_list([s["m"] for s in h["steps"]]), h["t"], C.qc_mat(KJ), C.qc_vec(mu), C.qc_mat(Sm), C.qc_vec(y))
 
@@ -405,7 +423,7 @@ def sub_history(h, k):
 def compare(out, h, obs, models_by_elem, A_by_elem):
     """models_by_elem: {final batch index tuple: decoded trace}; A_by_elem: exact K+S (floats) per element"""
     flags = "+".join(sorted(h["flags"])) or "default"
-    tag = "%s:%s" % (h["lik"], flags)
+    tag = "%s:%s:%s:%s" % (h["kernel"], "b" + ("x".join(map(str, h["b"])) or "0"), h["lik"], flags)
     kfin = len(h["steps"])
     Bfin = tuple(h["steps"][-1]["tg_batch"])
     for k, ob in enumerate(obs, 1):
@@ -510,7 +528,7 @@ def evaluate(out, hs, tagname):
 def run(out, ctx):
     tier, seed = ctx["tier"], ctx["seed"]
     rng = random.Random(seed * 104729 + 4)
-    nh = 70 if tier == "quick" else 700
+    nh = 36 if tier == "quick" else 400
     hs = [gen_history(rng, tier) for _ in range(nh)]
     # grid part: every (model batch, first-step form, likelihood, flag set) combination appears at least once
     grid = []
@@ -523,7 +541,7 @@ def run(out, ctx):
                     grid.append((b, form, lik, flags))
     rng.shuffle(grid)
     if tier == "quick":
-        grid = grid[: 40]
+        grid = grid[: 30]
     for b, form, lik, flags in grid:
         for _ in range(200):
             h = gen_history(rng, tier)
@@ -539,7 +557,8 @@ def run(out, ctx):
                 "fantasy batch dim, lower-dim inputs}, under {fast_pred_var} x {detach_test_caches}; plus a grid forcing every "
                 "(model batch, first form, likelihood, flags) combination; every final batch element is one Coq case; "
                 "non-trivial = n0>=2 or depth>=2" % (3 if tier == "quick" else 4))
-    out.extra["tolerances"] = {"all dense paths (abs+rel)": TOL, "source before/after": "bit-equal"}
+    out.extra["tolerances"] = {"all dense paths (abs+rel)": TOL, "source before/after": "bit-equal",
+                                "model inputs": "implementation's K, m, noise rounded to the dyadic grid 2^-44"}
     evaluate(out, hs, "C04")
     for h in hs:
         for k in range(1, len(h["steps"]) + 1):
